@@ -20,7 +20,7 @@ ASSUMPTIONS = [
     "zoo derivatives are hand written and self-tested by finite differences at shard start (failure = broken run)",
     "finite differences (4th order, h=1e-4) of the independent dense Hamiltonian decide derivatives to 2e-6 relative",
 ]
-REQUIRED = {"methods_compared": 500}
+REQUIRED = {"methods_compared": 500, "reused_state_histories": 100, "degenerate_hessian_positions": 10}
 BUDGET_S = {"quick": 90, "thorough": 900}
 TOL_V, TOL_D = 1e-9, 2e-6
 
@@ -46,6 +46,12 @@ def gen_cases(tier: str, seed: int):
             if k in zoo.TRACTABLE:
                 spec["metric"] = mk
             yield {"spec": spec, "seed": [seed, int(rng.integers(0, 2**31))]}
+    # directed: SoftAbs systems at positions where the Hessian has exactly / nearly repeated eigenvalues (eigenvalue
+    # crossings: third derivatives do not vanish), whose eigenvectors are not axis aligned
+    for k in range({"quick": 24, "thorough": 600}[tier]):
+        spec = zoo.random_sys_spec(rng, kinds=("riem_softabs",), dim_range=(2, 4))
+        spec["linear"] = "degenerate"
+        yield {"spec": spec, "seed": [seed, int(rng.integers(0, 2**31))], "rel_gap": [0.0, 0.0, 1e-12, 1e-8][k % 4]}
     for _ in range(n):
         yield {"spec": zoo.random_sys_spec(rng), "seed": [seed, int(rng.integers(0, 2**31))]}
 
@@ -79,9 +85,18 @@ def run_case(case, obs) -> None:  # noqa: C901, PLR0912, PLR0915
     cname = type(s).__name__
     mk = spec.get("metric", "-")
     tagbase = f"{cname}"
+    if spec.get("linear") == "degenerate":
+        q = m.target.degenerate_point(rng, case.get("rel_gap", 0.0))
+        lam = np.linalg.eigvalsh(m.target.hess(q))
+        obs.count("degenerate_hessian_positions")
+        obs.maxi("min_eigengap_at_degenerate_positions", -float(np.min(np.diff(lam))), None)
+        mk = f"degenerate-hessian:gap={case.get('rel_gap', 0.0):g}"
+        tagbase = f"{cname}:repeated-hessian-eigenvalues"
 
     def fresh():
         return m.state(q, p)
+
+    note = [""]
 
     def judge(name, got, ref, tol):
         obs.count("methods_compared")
@@ -92,7 +107,7 @@ def run_case(case, obs) -> None:  # noqa: C901, PLR0912, PLR0915
             obs.violation(f"{name}:non-finite:{tagbase}", f"{cname}.{name} returned non-finite value; spec={spec}")
         elif e > tol:
             obs.violation(f"{name}:mismatch:{tagbase}",
-                          f"{cname}.{name} differs from the independent reference by {e:.3e} (rel); metric={mk} spec={spec}")
+                          f"{cname}.{name} differs from the independent reference by {e:.3e} (rel){note[0]}; metric={mk} spec={spec}")
 
     # values
     judge("h1", s.h1(fresh()), m.ref_h1(q), TOL_V)
@@ -110,6 +125,37 @@ def run_case(case, obs) -> None:  # noqa: C901, PLR0912, PLR0915
     judge("sum:h=h1+h2", s.h(st), s.h1(fresh()) + s.h2(fresh()), 1e-12)
     judge("sum:dh_dpos", s.dh_dpos(st), s.dh1_dpos(fresh()) + s.dh2_dpos(fresh()), 1e-12)
     judge("sum:dh_dmom", s.dh_dmom(st), s.dh2_dmom(fresh()), 1e-12)
+    # call histories on ONE state object (and a copy of it): every method must keep returning the true value whatever was
+    # evaluated - and cached in the state - before it (the integrators evaluate the same derivative repeatedly at one position)
+    refs = {
+        "h1": (lambda st: s.h1(st), m.ref_h1(q), TOL_V),
+        "h2": (lambda st: s.h2(st), m.ref_h2(q, p), TOL_V),
+        "h": (lambda st: s.h(st), m.ref_h(q, p), TOL_V),
+        "dh1_dpos": (lambda st: s.dh1_dpos(st), zoo.fd_grad(m.ref_h1, q, hq), TOL_D),
+        "dh2_dpos": (lambda st: s.dh2_dpos(st), zoo.fd_grad(lambda x: m.ref_h2(x, p), q, hq), TOL_D),
+        "dh2_dmom": (lambda st: s.dh2_dmom(st), zoo.fd_grad(lambda x: m.ref_h2(q, x), p, hq), TOL_D),
+        "dh_dpos": (lambda st: s.dh_dpos(st), zoo.fd_grad(lambda x: m.ref_h(x, p), q, hq), TOL_D),
+        "dh_dmom": (lambda st: s.dh_dmom(st), zoo.fd_grad(lambda x: m.ref_h(q, x), p, hq), TOL_D),
+        "grad_neg_log_dens": (lambda st: s.grad_neg_log_dens(st), m.target.grad(q), TOL_V),
+        "neg_log_dens": (lambda st: s.neg_log_dens(st), m.target.f(q), TOL_V),
+    }
+    st = fresh()
+    names = list(refs)
+    seq = [names[i] for i in rng.integers(0, len(names), 10)]
+    seq[int(rng.integers(1, 10))] = seq[0]  # at least one repeat of the same method
+    base_tag, tagbase = tagbase, f"{cname}:on-reused-state"
+    done = []
+    for k, nm in enumerate(seq):
+        fn, ref, tol = refs[nm]
+        target = st if k < 6 else st2
+        if k == 5:
+            st2 = st.copy()
+        done.append(nm)
+        note[0] = f" after calls {done} on one state" + (" (last ones on a copy)" if k >= 6 else "")
+        judge(nm, fn(target), ref, tol)
+    obs.count("reused_state_histories")
+    tagbase = base_tag
+    note[0] = ""
     # class specific quantities
     judge("neg_log_dens", s.neg_log_dens(fresh()), m.target.f(q), TOL_V)
     judge("grad_neg_log_dens", s.grad_neg_log_dens(fresh()), m.target.grad(q), TOL_V)
